@@ -11,7 +11,8 @@ use crate::monitor::c14::pct_encode;
 use crate::store::*;
 use serde_json::{Value, json};
 
-const BUCKETS: [&str; 3] = ["bucket-a", "bucket-b", "bucket-c"];
+// (bucket-a-private: a name that merely continues the addressed bucket's name)
+const BUCKETS: [&str; 4] = ["bucket-a", "bucket-b", "bucket-c", "bucket-a-private"];
 
 pub struct World {
     pub scratch: Scratch,
@@ -266,6 +267,13 @@ pub fn hostile_key_templates(g: &mut Rng) -> Vec<(String, String)> {
         ("dotdot-bookkeeping".into(), format!("../.upload_id-{ouid}.part-1")),
         ("dotdot-bookkeeping".into(), format!("../.bucket-{}.object-{}.metadata.json", b64url("bucket-b"), b64url("secret"))),
         ("dotdot-bookkeeping".into(), format!("../.bucket-{}.object-{}.internal.json", b64url("bucket-b"), b64url("obj1"))),
+        ("dotdot-sibling-name".into(), "../bucket-a-private/secret".into()),
+        ("dotdot-sibling-name".into(), "../bucket-a-private/dir/obj2".into()),
+        ("dotdot-sibling-name".into(), "dir/../../bucket-a-private/new-object".into()),
+        ("dotdot-sibling-name".into(), "../bucket-a.lock".into()),
+        ("dotdot-sibling-name".into(), "../bucket-a-x/new".into()),
+        ("dotdot-sibling-name".into(), "../bucket-ab".into()),
+        ("dotdot-sibling-name".into(), "../bucket-a/../bucket-a-private/obj1".into()),
         ("dotdot-root".into(), "..".into()),
         ("dotdot-root".into(), "../".into()),
         ("dotdot-root".into(), "../bucket-b".into()),
@@ -297,7 +305,7 @@ pub fn hostile_key_templates(g: &mut Rng) -> Vec<(String, String)> {
         ("plain".into(), "does-not-exist".into()),
     ];
     // random compositions
-    const P: &[&str] = &["..", ".", "/", "//", "bucket-b", "bucket-c", "secret", "obj1", "dir", "outside", "%2e%2e", "%2f", "a"];
+    const P: &[&str] = &["..", ".", "/", "//", "bucket-b", "bucket-c", "bucket-a-private", "bucket-a", "bucket-a.", "secret", "obj1", "dir", "outside", "%2e%2e", "%2f", "a"];
     for _ in 0..12 {
         let mut k = String::new();
         for _ in 0..(2 + g.usize_below(5)) {
@@ -317,7 +325,7 @@ pub fn run(ctx: &RunCtx) -> i32 {
     let meta = CheckMeta {
         property: "C17",
         level: "exploration",
-        rule: "s3s-fs behind S3Service::call in a scratch directory with three populated buckets (objects with content markers, user metadata, checksums side files), one live multipart upload per bucket and a sentinel tree next to the root; for every object-level operation (Get, ranged Get, Head, Put, Delete, DeleteObjects, CopyObject with hostile destination and with hostile source, ListObjectsV2 prefix, CreateMultipartUpload) x ~55 keys from a traversal-rich alphabet ('..' towards other buckets / outside / bookkeeping files, absolute paths inside and outside the root, percent-encoded and double-encoded dots, '.', '//', leading and trailing '/', bookkeeping look-alikes, long components, control characters, random compositions) and for every multipart operation x hostile upload ids / keys: recursive snapshots (path, type, size, SHA-256, mtime) of the WHOLE scratch directory before and after, every changed path classified (addressed bucket / own bookkeeping / temp file / other bucket / foreign bookkeeping / outside root), and the response searched for content markers of non-addressed buckets and of the sentinel tree. Operations run strictly serially; the world is rebuilt after each violation-prone write. Second leg: the same operations x keys / upload ids in child processes under strace -f -y -e trace=%file, every operation bracketed by marker calls and run on a runtime that is dropped before the end marker; every path argument of every file system call between the markers (open, stat, unlink, rename, mkdir, ...) is made absolute, normalised and classified by the same zones, so that a file that is merely opened, read or stat-ed outside the root, in another bucket or among foreign bookkeeping files is seen although nothing changed and nothing of it was served. A cell is (operation, key class, outcome), for the second leg prefixed with syscall/.".into(),
+        rule: "s3s-fs behind S3Service::call in a scratch directory with four populated buckets (one of them, bucket-a-private, with a name that merely continues the addressed bucket's name) (objects with content markers, user metadata, checksums side files), one live multipart upload per bucket and a sentinel tree next to the root; for every object-level operation (Get, ranged Get, Head, Put, Delete, DeleteObjects, CopyObject with hostile destination and with hostile source, ListObjectsV2 prefix, CreateMultipartUpload) x ~55 keys from a traversal-rich alphabet ('..' towards other buckets / outside / bookkeeping files, absolute paths inside and outside the root, percent-encoded and double-encoded dots, '.', '//', leading and trailing '/', bookkeeping look-alikes, long components, control characters, random compositions) and for every multipart operation x hostile upload ids / keys: recursive snapshots (path, type, size, SHA-256, mtime) of the WHOLE scratch directory before and after, every changed path classified (addressed bucket / own bookkeeping / temp file / other bucket / foreign bookkeeping / outside root), and the response searched for content markers of non-addressed buckets and of the sentinel tree. Operations run strictly serially; the world is rebuilt after each violation-prone write. Second leg: the same operations x keys / upload ids in child processes under strace -f -y -e trace=%file, every operation bracketed by marker calls and run on a runtime that is dropped before the end marker; every path argument of every file system call between the markers (open, stat, unlink, rename, mkdir, ...) is made absolute, normalised and classified by the same zones, so that a file that is merely opened, read or stat-ed outside the root, in another bucket or among foreign bookkeeping files is seen although nothing changed and nothing of it was served. A cell is (operation, key class, outcome), for the second leg prefixed with syscall/.".into(),
         assumptions: vec![
             "syscall leg: a path is classified after lexical normalisation (the scratch tree holds no symbolic links); calls before the first marker (loader, runtime start, store set-up) are not judged; getcwd is not a file access".into(),
             "syscall leg: stat-like calls and read-only opens of bookkeeping files of OTHER objects of the addressed bucket are tolerated (listings), everything else outside {addressed bucket, copy source bucket, own bookkeeping, temp file, root directory itself} is a violation; the unchanged tree touches only those zones".into(),
